@@ -103,7 +103,9 @@ typedef enum varintFloatEncodingMode {
     /* COMMON_EXPONENT: All values share similar magnitude
      * Store base exponent + small deltas
      * Best for: sensor readings of same physical quantity
-     * Format: [signs][base_exp][exp_deltas][mantissas] */
+     * Format: [signs][base_exp][exp_deltas][mantissas]
+     * Deltas are one byte each: if the exponents of one array differ by more
+     * than 255 the encoder falls back to INDEPENDENT (recorded in the header) */
     VARINT_FLOAT_MODE_COMMON_EXPONENT = 1,
 
     /* DELTA_EXPONENT: Sequential exponents (time series)
